@@ -106,7 +106,11 @@ def calculate_treelikelihood_tip_states_discrete(
     mat_tips = torch.cat(
         (
             mats[..., :tip_count, :, :, :],
-            torch.ones(mats[..., :tip_count, :, :, :].shape[:-1] + (1,)),
+            torch.ones(
+                mats[..., :tip_count, :, :, :].shape[:-1] + (1,),
+                dtype=mats.dtype,
+                device=mats.device,
+            ),
         ),
         -1,
     )
@@ -244,7 +248,11 @@ def calculate_treelikelihood_tip_states_discrete_rescaled(
     mat_tips = torch.cat(
         (
             mats[..., :tip_count, :, :, :],
-            torch.ones(mats[..., :tip_count, :, :, :].shape[:-1] + (1,)),
+            torch.ones(
+                mats[..., :tip_count, :, :, :].shape[:-1] + (1,),
+                dtype=mats.dtype,
+                device=mats.device,
+            ),
         ),
         -1,
     )
